@@ -228,6 +228,11 @@ func (s *Server) verifyConsensusFieldMain(cp *params.CaravelParams, seedHeader *
 		logging.Error("VerifyHeader failed. Get consensus data failed.", err)
 		return errInvalidConsensusData
 	}
+	// a credential that won no seat is no proposer credential (isProposer requires subUsers > 0)
+	if consensusData.SubUsers == 0 {
+		logging.Error("VerifyHeader failed, proposer without a seat.", "Round", consensusData.Round, "RoundIndex", consensusData.RoundIndex)
+		return errInvalidConsensusData
+	}
 	// get block proposer's public key and VRF public key
 	pubKey, err := consensusData.GetPublicKey()
 	if err != nil {
